@@ -967,8 +967,16 @@ impl<T: Serialize + for<'de> Deserialize<'de> + Clone + PartialEq + Send + Sync 
     async fn recover_from_wal(&self, stats: &mut RecoveryStats) -> Result<()> {
         let wal_files = self.find_wal_files()?;
 
+        // Entries up to the loaded snapshot's transaction ID are already part of the state;
+        // applying them again on top of it could resurrect superseded values
+        let covered_up_to = *self.transaction_counter.lock().map_err(|_| {
+            P2PError::Storage(StorageError::LockPoisoned(
+                "mutex lock failed".to_string().into(),
+            ))
+        })?;
+
         for wal_path in wal_files {
-            match self.replay_wal_file(&wal_path, stats).await {
+            match self.replay_wal_file(&wal_path, covered_up_to, stats).await {
                 Ok(entries) => {
                     stats.wal_files_processed += 1;
                     stats.entries_recovered += entries;
@@ -1004,7 +1012,12 @@ impl<T: Serialize + for<'de> Deserialize<'de> + Clone + PartialEq + Send + Sync 
     }
 
     /// Replay single WAL file
-    async fn replay_wal_file(&self, path: &Path, stats: &mut RecoveryStats) -> Result<u64> {
+    async fn replay_wal_file(
+        &self,
+        path: &Path,
+        covered_up_to: u64,
+        stats: &mut RecoveryStats,
+    ) -> Result<u64> {
         let mut file = File::open(path).map_err(|e| {
             P2PError::Storage(StorageError::Database(
                 format!("Failed to open WAL file: {e}").into(),
@@ -1092,6 +1105,11 @@ impl<T: Serialize + for<'de> Deserialize<'de> + Clone + PartialEq + Send + Sync 
                     recovery_action: RecoveryAction::Skipped,
                 });
                 stats.entries_failed += 1;
+                continue;
+            }
+
+            // Skip entries the loaded snapshot already contains
+            if entry.transaction_id <= covered_up_to {
                 continue;
             }
 
@@ -1558,7 +1576,7 @@ impl<T: Serialize + for<'de> Deserialize<'de> + Clone + PartialEq + Send + Sync 
     /// Verify WAL file integrity
     async fn verify_wal_integrity(&self, path: &Path) -> Result<u64> {
         let stats = &mut RecoveryStats::default();
-        self.replay_wal_file(path, stats).await
+        self.replay_wal_file(path, 0, stats).await
     }
 }
 
